@@ -133,6 +133,11 @@ def part_macro(res, rng, types, tier):
             except Exception as e:
                 res.violation(f"C20:macro-group-raises:{type(e).__name__}", f"driving the fresh bundle of group {picks} raised {e!r}", case)
                 continue
+        try:
+            p.read()        # "is created": the project holding the new bundle is an ordinary, saveable project
+        except Exception as e:
+            res.violation(f"C20:macro-unsaveable:{type(e).__name__}", f"after macro() for group {picks} the project cannot be saved: {e!r}", case)
+            continue
         if mc.out_links != [m.index for m, _ in pairs]:
             res.violation("C20:macro-group-order", f"group linked as {mc.out_links}, expected {[m.index for m, _ in pairs]}", case)
             continue
